@@ -112,6 +112,11 @@ func (k c07) Run(c *rt.Ctx) {
 	if !bigint && r.Chance(1, 12) {
 		// floats that differ in their last digits only (no tolerance applies to a sort)
 		vals := []string{"1.0000000001", "1.0000000002", "1.00000000015", "0.30000000000000004", "0.3", "1.0", "0.29999999999", "2.5", "1.0000000001"}
+		if r.Bool() {
+			// magnitudes no 64-bit integer holds, whole numbers among them
+			vals = []string{"1e19", "1e300", "-1e19", "9300000000000000000", "18446744073709551616", "2.5", "-1e300", "1e19", "3", "-7"}
+			c.Rec.Inc("huge_float_store")
+		}
 		n := r.Range(4, 12)
 		var ps []refstore.Pair
 		for i := 0; i < n; i++ {
